@@ -25,7 +25,7 @@ func init() {
 
 var profC03 = Profile{
 	MaxBars: 6, MinBars: 2, MaxSteps: 30, Refresh: []string{"autoinj", "autoinj", "autort"}, QLens: []int{-1, -1, -4},
-	Pop: 30, Queue: 20, Prio: true, Ext: 15, Text: 1, Rm: 30, NoPop: 25, AbortW: 3, TicksW: 4,
+	Pop: 30, Queue: 20, LateSuccW: 2, Prio: true, Ext: 15, Text: 1, Rm: 30, NoPop: 25, AbortW: 3, TicksW: 4,
 	SyncDecors: 1, PlainDecors: 1, Wraps: true, DisabledPct: 6, OnCompleteFill: 50, Cancel: 12, PostTerm: true,
 	Fillers: []string{"bar", "tag", "spinner"}, LateAdd: true, Delay: 15, DelaySleep: 60, OutSlow: 12,
 }
